@@ -87,7 +87,7 @@ def scan_harnesses():
             attrs.setdefault('tier', 'quick')
             attrs.setdefault('kind', 'check')
             attrs['timeout'] = int(attrs.get('timeout', 1500))
-            attrs['mem'] = int(attrs.get('mem', 12))
+            attrs['mem'] = int(attrs.get('mem', 7))
             out.append(attrs)
     return out
 
